@@ -139,6 +139,9 @@ class err_handler(object):
         #logger.debug('add_isa loop')
         self.children.append(err_isa(self, seg_data, src))
         self.cur_isa_node = self.children[-1]
+        # the groups and sets of the interchange before are not open any more
+        self.cur_gs_node = None
+        self.cur_st_node = None
         self.cur_seg_node = self.cur_isa_node
         self.seg_node_added = True
 
@@ -151,6 +154,8 @@ class err_handler(object):
         parent = self.cur_isa_node
         parent.children.append(err_gs(parent, seg_data, src))
         self.cur_gs_node = parent.children[-1]
+        # the sets of the group before are not open any more
+        self.cur_st_node = None
         self.cur_seg_node = self.cur_gs_node
         self.seg_node_added = True
 
